@@ -27,8 +27,11 @@ from harness.core import Ctx, corpus, enc_text
 from harness.props import c13
 
 ID = "C14"
-GEN = ["Xsd"]
+from harness import pattern_shape
+
+GEN = ["Xsd", "PatternShape"]
 gen_Xsd = c13.gen_Xsd
+gen_PatternShape = pattern_shape.gen_PatternShape
 
 _XS = "{http://www.w3.org/2001/XMLSchema}"
 
@@ -215,10 +218,18 @@ def correspond(ctx: Ctx) -> None:
         "XSD validation semantics are those of the independent xmlschema library (XSD 1.0 and 1.1 modes)",
         "the inferred constraints (infer_for_schema.infer_constraints_by_class) are the input of the check, not its subject (C15)",
     ]
+    ctx.extra_cov["rule"] += (
+        "; patterns (shape/…, pattern-enforced/…): anchors in every unusual position (46 enumerated), the corpus/enumerated/random "
+        "patterns of C13 and anchors planted at random positions into them: the real _verify_patterns_anchored_at_start_and_end "
+        "against the model, and for every pattern it accepts <= 90 texts (samples of the language and their one-character "
+        "neighbours, the pattern without its anchors): a text Python's re rejects must be rejected by the written pattern facet"
+    )
     facet_stage(ctx)
+    pattern_shape.shape_stage(ctx)
 
 
 def oracle(ctx: Ctx) -> None:
+    pattern_shape.anchor_oracle(ctx)
     c13.intersection_stage(ctx, accepts_invalid=True)
     c13.enumerated_stage(ctx, valid=False, mutants=True)
     c13.close_families(ctx)
